@@ -430,13 +430,14 @@ def c03_stats(rows):
 def register(props):
     global _P
     _P = props
-    props.FAMILY_STATS["c03objects"] = c03_stats
-    props.DIRECT[("C03", "c03objects")] = c03_direct
-    props.EXPLAIN[("C03", "c03objects")] = c03_explain
+    for fam in ("c03objects", "c03rebuilt"):
+        props.FAMILY_STATS[fam] = c03_stats
+        props.DIRECT[("C03", fam)] = c03_direct
+        props.EXPLAIN[("C03", fam)] = c03_explain
     prev_agree = props.agree
 
     def agree(prop, fam, case, obs, pred):
-        if fam == "c03objects":
+        if fam in ("c03objects", "c03rebuilt"):
             # error paths and the constraint flag are not C03's observables (with several faults the first error depends on
             # Go's map iteration order): accept/reject and the result value are
             return obs == pred or props.strip_err_paths(obs) == props.strip_err_paths(pred)
@@ -444,11 +445,17 @@ def register(props):
     props.agree = agree
     props.PROPS["C03"] = {
         "theory": "Properties/C03.v",
-        "families": ["c03objects"],
+        "families": ["c03objects", "c03rebuilt", "structobj"],
         "rule": "c03objects: map-based objects whose properties are unbounded ints, so acceptance is decided by keys, presence rules, "
                 "defaults and the disabled flag alone; see `exhaustive` in the family statistics for the enumerated space; distinct by case "
                 "text; non-trivial = the schema carries a rule/default/disabled flag (or is a one-of) and the case has an accepted and a "
-                "rejected call",
+                "rejected call. c03rebuilt: the same objects (every one-property configuration, sampled two-property and 3..6-property "
+                "ones, defaults below the root through a reference / an inline object / a one-of member) built by the constructors, then "
+                "SelfSerialize -> (real CBOR round trip for every other case) -> UnserializeScope or, for scopes without references, "
+                "DescribeScope().Unserialize without the link step; the operations run on THAT instance "
+                "(decoded-default cache still empty), the first one an Unserialize of the empty map; predicted by the model of the "
+                "original schema. structobj: struct-mapped objects (lib/props_struct.py), incl. Validate and Serialize of one native "
+                "value giving one verdict",
         "assumptions": ["property names of an object and keys of a raw map are unique (Go maps)",
                         "struct-mapped objects are covered by the struct-mapped extension of the model (another work package)"],
         "level_text": "Theorems (all property lists, all rule graphs, all raw maps, unbounded): Unserialize of a map-based object returns Ok n "
